@@ -219,7 +219,13 @@ type Result struct {
 	Panic    any
 }
 
+// Setup, if set, runs before every execution outside the scheduler (goroutines it starts are free-running).
+var Setup func()
+
 func runOnce(prefix []int, body func()) Result {
+	if Setup != nil {
+		Setup()
+	}
 	r := &run{byGoid: map[int64]*thread{}, prefix: prefix, finished: make(chan struct{}), closed: map[uintptr]bool{}}
 	gmu.Lock()
 	R = r
@@ -234,13 +240,23 @@ func runOnce(prefix []int, body func()) Result {
 	return Result{r.Points, r.Deadlock, r.Panic}
 }
 
-type Stats struct{ Executions, MaxPoints int }
+type Stats struct {
+	Executions, MaxPoints int
+	Truncated             bool // the budget (Stop) ended the enumeration early
+}
+
+// Stop, if set, is polled between executions; returning true ends the enumeration (Stats.Truncated).
+var Stop func() bool
 
 // Explore enumerates all schedules of body with at most bound preemptions.
 func Explore(bound int, body func(), check func(Result, []int)) Stats {
 	var st Stats
 	var rec func(prefix []int)
 	rec = func(prefix []int) {
+		if st.Truncated || (Stop != nil && Stop()) {
+			st.Truncated = true
+			return
+		}
 		x := runOnce(prefix, body)
 		st.Executions++
 		if len(x.Points) > st.MaxPoints {
@@ -349,6 +365,8 @@ func SendTo[T any](ch chan<- T) func(T) { return func(v T) { Send(ch, v) } }
 type Case interface {
 	ready(r *run) bool
 	fire() bool
+	rcase() reflect.SelectCase       // for goroutines outside the scheduler
+	took(v reflect.Value, ok bool)
 }
 
 type RecvC[T any] struct {
@@ -382,6 +400,15 @@ func (c *RecvC[T]) fire() bool {
 		return false
 	}
 }
+func (c *RecvC[T]) rcase() reflect.SelectCase {
+	return reflect.SelectCase{Dir: reflect.SelectRecv, Chan: reflect.ValueOf(c.ch)}
+}
+func (c *RecvC[T]) took(v reflect.Value, ok bool) {
+	c.ok = ok
+	if ok {
+		c.v, _ = v.Interface().(T)
+	}
+}
 func (c *RecvC[T]) Get() (T, bool) { return c.v, c.ok }
 func (c *RecvC[T]) Val() T         { return c.v }
 
@@ -394,6 +421,10 @@ func SendCaseTo[T any](ch chan<- T) func(T) *SendC[T] {
 	return func(v T) *SendC[T] { return &SendC[T]{ch, v} }
 }
 func (c *SendC[T]) ready(r *run) bool { return len(c.ch) < cap(c.ch) }
+func (c *SendC[T]) rcase() reflect.SelectCase {
+	return reflect.SelectCase{Dir: reflect.SelectSend, Chan: reflect.ValueOf(c.ch), Send: reflect.ValueOf(&c.v).Elem()}
+}
+func (c *SendC[T]) took(reflect.Value, bool) {}
 func (c *SendC[T]) fire() bool {
 	select {
 	case c.ch <- c.v:
@@ -408,7 +439,14 @@ func (c *SendC[T]) fire() bool {
 func Select(cases ...Case) int {
 	r, t := cur()
 	if t == nil {
-		panic("vsched.Select from uncontrolled goroutine (prototype limitation)")
+		// a goroutine outside the scheduler (infrastructure started before the run): a real select
+		rc := make([]reflect.SelectCase, len(cases))
+		for i, c := range cases {
+			rc[i] = c.rcase()
+		}
+		i, v, ok := reflect.Select(rc)
+		cases[i].took(v, ok)
+		return i
 	}
 	r.schedule(t)
 	for {
